@@ -74,10 +74,39 @@ func (s *source) object(t *testing.T, data []byte) storage.ObjectHandle {
 	return s.b.Object(name)
 }
 
+// chunks cuts data into the Write calls of one style: "write" two halves,
+// "uneven" a short head, a long body and a one-byte tail, "tiny" 7-byte
+// writes for the first 700 bytes and the rest in one call. The bytes and
+// their order are the same in every style.
+func chunks(data []byte, style string) [][]byte {
+	switch style {
+	case "uneven":
+		h := 18
+		if h > len(data) {
+			h = len(data)
+		}
+		t := len(data) - 1
+		if t < h {
+			t = h
+		}
+		return [][]byte{data[:h], data[h:t], data[t:]}
+	case "tiny":
+		var cs [][]byte
+		i := 0
+		for ; i+7 <= len(data) && i < 700; i += 7 {
+			cs = append(cs, data[i:i+7])
+		}
+		return append(cs, data[i:])
+	}
+	h := len(data) / 2
+	return [][]byte{data[:h], data[h:]}
+}
+
 // writeObj stores data under name in one of the ways a caller can:
 //
 //	"write":   NewWriter, Write twice (two halves; for empty data two empty
 //	           Writes), Close
+//	"uneven", "tiny": as "write" with other chunk sizes (see chunks)
 //	"nowrite": NewWriter, Close -- no Write call at all (empty data only)
 //	"copy":    storage.Copy from a source object that holds data
 func writeObj(t *testing.T, src *source, b storage.BucketHandle, name string, data []byte, style string) error {
@@ -102,15 +131,13 @@ func writeObj(t *testing.T, src *source, b storage.BucketHandle, name string, da
 				return errors.New("harness: nowrite with data")
 			}
 		} else {
-			// two chunks, to notice writers that keep only the last Write
-			h := len(data) / 2
-			if _, err := w.Write(data[:h]); err != nil {
-				w.Close()
-				return fmt.Errorf("Write: %w", err)
-			}
-			if _, err := w.Write(data[h:]); err != nil {
-				w.Close()
-				return fmt.Errorf("Write: %w", err)
+			// several chunks, to notice writers that keep only the last Write
+			// or that reorder / coalesce chunks of different sizes
+			for _, c := range chunks(data, style) {
+				if _, err := w.Write(c); err != nil {
+					w.Close()
+					return fmt.Errorf("Write: %w", err)
+				}
 			}
 		}
 		if err := w.Close(); err != nil {
@@ -783,7 +810,7 @@ func TestVerifC18Random(t *testing.T) {
 					id = old
 				}
 				datas[string(d)] = id
-				style := []string{"write", "copy"}[r.Intn(2)]
+				style := []string{"write", "copy", "uneven", "tiny"}[r.Intn(4)]
 				if ln == 0 {
 					style = []string{"nowrite", "nowrite", "write", "copy"}[r.Intn(4)]
 				}
